@@ -1476,7 +1476,7 @@ func runC20(args []string) error {
 	out := fs.String("out", "/verif/work/C20", "output dir")
 	seed := fs.Uint64("seed", 1, "seed")
 	n := fs.Int("n", 400, "cases per family")
-	only := fs.String("only", "", "run only this family (csv: the RPC watcher's CSV registration / HandleCsvTx sequences)")
+	only := fs.String("only", "", "run only this family (csv | conf | elec)")
 	monitor := fs.String("monitor", "c20_monitor", "Coq monitor function (c20_case -> bool)")
 	imports := fs.String("imports", "", "extra Coq import line for the monitor")
 	fs.Parse(args)
@@ -1486,8 +1486,13 @@ func runC20(args []string) error {
 	cf := NewCaseFile("From PS Require Import Model.RpcWatcher Model.ElectrumWatcher Model.C20Corr.\n"+*imports,
 		"c20_case", "c20_check", *monitor)
 	nConf, nCsv, nElec := *n, *n/2, *n
-	if *only == "csv" {
+	switch *only {
+	case "csv":
 		nConf, nCsv, nElec = 0, *n, 0
+	case "conf": // the RPC watcher's confirmation loop (corpus + simulated chains + synthetic views)
+		nConf, nCsv, nElec = *n, 0, 0
+	case "elec": // the lwk electrum watcher
+		nConf, nCsv, nElec = 0, 0, *n
 	}
 	stepTags := map[string]int{}
 
@@ -1509,7 +1514,7 @@ func runC20(args []string) error {
 		cf.Add(key, key, nontriv || len(c.Steps) > 1, rpcConfKind(c), c)
 		return nil
 	}
-	if *only == "" {
+	if *only == "" || *only == "conf" {
 		for _, c := range corpusRpcConf() {
 			if err := addRpcConf(c); err != nil {
 				return err
